@@ -17,7 +17,7 @@ REAL = ["Dispatcher.dispatch/reset/subscribe/unsubscribe/create_or_get_observer"
 STUB = ["recording observer subclasses defined by the harness (peers)"]
 ASSUMPTIONS = ["re-entrant (un)subscription from inside update() and subscribing one object twice through raw subscribe() are out of scope"]
 
-CHURN = ["new_single", "new_multi", "new_other", "new_history", "unsub", "resub", "dup_single", "cog"]
+CHURN = ["new_single", "new_multi", "new_other", "new_history", "unsub", "resub", "dup_single", "cog", "bad_feature_observer"]
 
 
 def generate(seed, tier):
@@ -73,7 +73,7 @@ class H(Hooks):
     def subscribed_of(self, kind):
         return [t for t in self.subscribed if self.kind[t] == kind]
 
-    def check_subscriber_list(self, w, when):
+    def check_subscriber_list(self, w, when, allow_dependencies=False):
         real = w.disp.subscribers
         want = [self.objs[t] for t in self.subscribed]
         ok = len(real) == len(want) and all(a is b for a, b in zip(real, want))
@@ -118,6 +118,18 @@ class H(Hooks):
             if kind == "history":
                 self.hist_expect[tag] = []
             return tag
+        if action == "bad_feature_observer":
+            # a refused request for an observer (unsupported feature type): nobody gets subscribed
+            from job_shop_lib.dispatching.feature_observers import PositionInJobObserver, RemainingOperationsObserver, FeatureType
+
+            cls, ft = [(PositionInJobObserver, FeatureType.JOBS), (RemainingOperationsObserver, FeatureType.OPERATIONS), (PositionInJobObserver, FeatureType.MACHINES)][a % 3]
+            try:
+                cls(d, feature_types=[ft])
+            except Exception:  # noqa: BLE001
+                self.check_subscriber_list(w, f"after the refused {cls.__name__}(feature_types=[{ft.value}])", allow_dependencies=True)
+                ctx.probe("refused_feature_observer")
+                return "raised"
+            return "accepted"
         if action == "unsub":
             if not self.subscribed:
                 return "skip"
